@@ -22,7 +22,8 @@ def _extra(lines, verdicts):
     return {"derived_structs_exercised": len(structs), "impl_accepted": accepted,
             "impl_rejected": rejected, "impl_round_trips_completed": rt}
 
-N_STRUCTS = 63
+N_STRUCTS = 71          # registered structs (descriptor self-check, kind XD)
+N_NESTED = 5            # structs with derived-struct field types (kind NV)
 
 def _post(lines, verdicts):
     """Coverage floors: the run must really have exercised what the evidence claims.  Skipped for
@@ -52,9 +53,12 @@ def _post(lines, verdicts):
             problems.append(("diff", f"coverage: kind {k}", f"diff coverage-floor kind {k}: {kinds.get(k, 0)} of {n} cases"))
     if xd != N_STRUCTS:
         problems.append(("diff", "coverage: XD", f"diff coverage-floor descriptor self-check ran for {xd} structs, expected {N_STRUCTS}"))
-    if len(per_struct) != N_STRUCTS or min(per_struct.values()) < 200:
+    for k, floor in (("PR", 2000), ("NV", 2500)):
+        if kinds.get(k, 0) < floor:
+            problems.append(("diff", f"coverage: kind {k}", f"diff coverage-floor kind {k}: {kinds.get(k, 0)} cases, floor {floor}"))
+    if len(per_struct) != N_STRUCTS + N_NESTED or min(per_struct.values()) < 200:
         low = sorted(per_struct.items(), key=lambda kv: kv[1])[:3]
-        problems.append(("diff", "coverage: structs", f"diff coverage-floor {len(per_struct)} structs exercised (expected {N_STRUCTS}), least: {low}"))
+        problems.append(("diff", "coverage: structs", f"diff coverage-floor {len(per_struct)} structs exercised (expected {N_STRUCTS + N_NESTED}), least: {low}"))
     if accepted < 0.25 * n:
         problems.append(("diff", "coverage: accepted", f"diff coverage-floor only {accepted} of {n} cases accepted by the implementation"))
     if rts < 0.05 * n:
@@ -67,13 +71,13 @@ SPEC = {
     "bin": "c16",
     "sizes": {"quick": 60000, "thorough": 2000000},
     "search_n": 300000,
-    "rule": ("fixed family of 63 derived structs (33 UDT-value structs with SerializeValue+DeserializeValue, 15 row structs with "
-             "SerializeRow+DeserializeRow, 15 SerializeRow structs with #[scylla(flatten)]), each registered with its descriptor text (re-derived from the attribute text of the runner's own source as a self-check, kind XD); "
+    "rule": ("fixed family of 71 registered derived structs (36 UDT-value structs, 18 row structs with "
+             "SerializeRow(+DeserializeRow), 17 SerializeRow structs with #[scylla(flatten)]; among them structs with lifetime / type parameters and #[scylla(crate = ..)]), each registered with its descriptor text (re-derived from the attribute text of the runner's own source as a self-check, kind XD); "
              "per struct: every permutation of its <= 6 bound fields, every subset of fields missing in 4 orders, one extra field at "
              "every position, two extras at every pair of positions, every field duplicated at every position, every field with "
              "every other DB type, Rust identifiers of renamed fields as DB names, a non-UDT type; per DB list one serialize case "
              "(with round trip through the derived deserializer on the implementation's own bytes) and deserialize cases with "
-             "random cells / every null pattern (all orders for <= 3 fields, declared and reversed order up to 4 fields quick / 6 thorough) / truncated value lists; then --n seeded random cases. "
+             "random cells / every null pattern (all orders for <= 3 fields, declared and reversed order up to 4 fields quick / 6 thorough) / truncated value lists; then --n seeded random cases (extra names randomised: random identifiers, case variants of the struct's names, Rust identifiers of renamed / skipped fields). Kind PR: row cases re-run on ColumnSpecs decoded by the driver itself from a PREPARED response encoded by mocknode. Kind NV: 5 structs whose field types are derived structs (UDT in UDT, Option<Struct>, Vec<Struct>, UDT as a row column, ordered parent): every outer x inner field order x extras / absent allow_missing, judged by the round-trip law only (no model). "
              "non-trivial = DB list non-empty and a UDT / column list; distinct = distinct case lines"),
     "nontrivial": _nontrivial,
     "extra_coverage": _extra,
